@@ -313,3 +313,44 @@ def keep_rows(u):
     u.ensure(QAll(nnz, lambda q: M.coo[3].vec().f(q) == data0.f(q)), "argument_not_modified", props=["C11"])
     log.check()
     u.cover("end")
+
+
+def deriv_at_unit(scaled):
+    nm = "ScaledImplicitFunc" if scaled else "ImplicitFunc"
+
+    @unit(f"C13.{nm}.deriv_at", ["C13", "C14"], [IF + nm + ".deriv_at"], config={"max_paths": 20})
+    def deriv_at(u, scaled=scaled):
+        """deriv_at(iterate, rho, active_set) == deriv(iterate.aug_lag_deriv_xy(), iterate.aug_lag_deriv_xx(rho), A) with
+        A the given active set, or compute_active_set(iterate, rho) when none is given (the parts are proved in
+        C13.<class>.deriv, C13.aug_lag_deriv_xx, C13.aug_lag, C13.<class>.value_at)"""
+        from pyvc.values import Mat, Opaque
+
+        params, problem, orig, cur, dt, func = mk_func(u, scaled)
+        rho = u.real("rho")
+        u.assume(rho > 0)
+        n, m = problem.fields["__n__"], problem.fields["num_cons"]
+        H, J, D = Mat(n, n, None, name="Hxx"), Mat(m, n, None, name="Jxy"), Mat(n + m, n + m, None, name="D")
+        log = {}
+        A = u.it.abstract
+        IT_ = "pygradflow.iterate.Iterate."
+        A[IT_ + "aug_lag_deriv_xx"] = lambda it, s, r: (log.setdefault("xx", (s, r)), H)[1]
+        A[IT_ + "aug_lag_deriv_xy"] = lambda it, s: (log.setdefault("xy", (s,)), J)[1]
+        A[IF + nm + ".deriv"] = lambda it, s, jac, hess, aset: (log.setdefault("deriv", (jac, hess, aset)), D)[1]
+        computed = u.vec("computed_active_set", n, kind="bool")
+        A[IF + "StepFunc.compute_active_set"] = lambda it, s, iterate, r, tau=None: (log.setdefault("cas", (iterate, r, tau)), computed)[1]
+        given = u.path.choose("active set given")
+        aset = u.vec("given_active_set", n, kind="bool") if given else None
+        res = u.method(func, "deriv_at", cur, rho, aset)
+        u.ensure(res is D, "returns_deriv(...)")
+        u.ensure(log["deriv"][0] is J and log["deriv"][1] is H, "deriv_receives(aug_lag_deriv_xy(),aug_lag_deriv_xx(rho))")
+        u.ensure(log["xx"][0] is cur and log["xx"][1] is rho and log["xy"][0] is cur, "derivatives_of_the_given_iterate_at_the_given_rho")
+        if given:
+            u.ensure(log["deriv"][2] is aset and "cas" not in log, "given_active_set_used_as_it_is")
+        else:
+            u.ensure(log["deriv"][2] is computed and log["cas"][0] is cur and log["cas"][1] is rho, "active_set==compute_active_set(iterate,rho)_when_none_is_given")
+
+    return deriv_at
+
+
+deriv_at_unit(False)
+deriv_at_unit(True)
